@@ -1,7 +1,21 @@
-(* C02 -- JSON Schema samples. (theorems are added as they are closed; models in JsonGen.v / Normalize.v) *)
-From Fences Require Import JsonGen.
+(* C02 -- JSON Schema: every sample labelled invalid is rejected by the schema.
+   Leaf level (proved here): each number labelled invalid lies just outside the bound it was built from. *)
+From Fences Require Import JsonGen JsonLeaves.
+From Coq Require Import ZArith.
+Local Open Scope Z_scope.
 
-(* the null handler emits exactly one valid leaf carrying null *)
-Theorem C02_null_leaf : forall p st, exists st' root, parse_null p st = Ok (st', root).
-Proof. intros p st. unfold parse_null. repeat (destruct (jnoop _ _ _) || destruct (jleaf _ _ _)). eauto. Qed.
-Print Assumptions C02_null_leaf.
+Theorem C02_number_leaf : forall mn mx v,
+  In v (number_invalid_values mn mx) ->
+  (exists lo, mn = Some lo /\ v = lo - 1) \/ (exists hi, mx = Some hi /\ v = hi + 1).
+Proof. exact number_invalid_violates. Qed.
+Print Assumptions C02_number_leaf.
+
+Corollary C02_number_leaf_rejected : forall mn mx mo v,
+  In v (number_invalid_values mn mx) -> ~ num_ok mn mx mo v.
+Proof.
+  intros mn mx mo v H (A & B & _).
+  destruct (number_invalid_violates mn mx v H) as [(lo & E & ->)|(hi & E & ->)].
+  - specialize (A lo E). lia.
+  - specialize (B hi E). lia.
+Qed.
+Print Assumptions C02_number_leaf_rejected.
